@@ -272,6 +272,15 @@ def run(ctx: Ctx) -> None:
                 p = Path(td) / nm
                 p.write_bytes(data)
                 files.append(str(p))
+        # files whose traversal hits the recursion limit (refurb swallows that error and goes on with the next file):
+        # whatever was found in them before must still be reported for THEM, at positions that exist in THEM
+        deep_src = "rows = []\nrows.append(1)\nrows.append(2)\nx = int(0)\ntotal = 1" + " + 1" * 700 + "\n"
+        deep_files = []
+        for k, at in enumerate((0, len(files) // 2)):
+            p = Path(td) / f"deep{k}_sum.py"
+            p.write_text(deep_src)
+            files.insert(at, str(p))
+            deep_files.append(str(p))
         out = run_refurb(Settings(files=files, enable_all=True, quiet=True))
         strs = [e for e in out if isinstance(e, str)]
         if strs:
@@ -299,4 +308,16 @@ def run(ctx: Ctx) -> None:
                            {"file": Path(e.filename).name, "line": e.line, "column0": e.column, "code": e.code, "verdict": v,
                             "source_line": lines[e.line - 1] if 0 < e.line <= len(lines) else None,
                             "content": Path(e.filename).read_text("utf8", errors="replace") if len(Path(e.filename).read_bytes()) < 6000 else None})
+        # a diagnostic names the file it was found in: what is reported for the file that follows a recursion-limit
+        # file must be what that file gets when checked alone
+        for at in [files.index(d) for d in deep_files if files.index(d) + 1 < len(files)]:
+            succ = files[at + 1]
+            alone = {(e.line, e.column, e.code) for e in run_refurb(Settings(files=[succ], enable_all=True, quiet=True)) if not isinstance(e, str)}
+            together = {(e.line, e.column, e.code) for e in out if not isinstance(e, str) and e.filename == succ}
+            ctx.case(("after-deep", Path(succ).name), nontrivial=True)
+            ctx.count("file-after-recursion-limit-file")
+            if alone != together:
+                extra = sorted(together - alone)[:4]
+                ctx.report("position:belongs-to-another-file", f"{Path(succ).name}, checked after a file whose traversal hits the recursion limit, is reported {sorted(together ^ alone)[:4]} differently from when it is checked alone",
+                           {"files": [Path(files[at]).name, Path(succ).name], "only_together": extra, "only_alone": sorted(alone - together)[:4]})
     ctx.resolve_broken({"furb106_position": "position:", "furb180_position_guarded": "position:", "translate hand-computed positions": "position:"}, b.first_error if b else "")
